@@ -39,6 +39,28 @@ class SetTyping:
                                 (isinstance(n, ast.AnnAssign) and ann_is_set(n.annotation)):
                             self.set_attrs.setdefault(tg.attr, f"{f.file}:{n.lineno}")
 
+        # ... and functions that return a set whatever they are annotated with (`-> Collection[TreeNode]`): every function of
+        # that name returns, on every value-returning path, an expression that is set-typed
+        by_name = {}
+        for f in model.functions.values():
+            by_name.setdefault(f.node.name, []).append(f)
+        for _ in range(2):
+            for nm, fs in by_name.items():
+                if nm in self.set_returning or nm.startswith("__"):
+                    continue
+                good = True
+                for f in fs:
+                    rets = [r for r in walk_no_nested(f.node) if isinstance(r, ast.Return) and r.value is not None]
+                    if not rets or any(isinstance(y, (ast.Yield, ast.YieldFrom)) for y in walk_no_nested(f.node)):
+                        good = False
+                        break
+                    loc = self.locals_of(f.node)
+                    if not all(self.is_set(r.value, loc) for r in rets):
+                        good = False
+                        break
+                if good:
+                    self.set_returning.add(nm)
+
     @staticmethod
     def ctor(e):
         if isinstance(e, (ast.Set, ast.SetComp)):
